@@ -10,7 +10,7 @@ BASE = dict(
     Fam='<- MCFam', ListenFam='<- MCListenFam', Strict='FALSE', ReqFams='{0}',
     ChanNums='{16384, 16385}', LifeReqs='<- MCLifeAbsent', Txids='{"t1"}', Pays='{"p"}',
     Lens='<- MCLenSmall', InboundMTU='1600', PermSeqs='<- MCPermSeqs1',
-    DefaultLife='5', PermTO='2', ChanTO='3', MaxLife='3600', Denied='<- MCNoDenied', Toks='{"none"}', ResvTO='30', MaxDepth='6',
+    DefaultLife='5', PermTO='2', ChanTO='3', MaxLife='3600', Denied='<- MCNoDenied', Toks='{"none"}', ResvTO='30', QuotaDenied='{}', MaxDepth='6',
 )
 
 INVS = "TypeOK C01_NeverInstalled NoOrphans C08_Bijection C08_Range C19_ReservedOnce"
@@ -21,7 +21,7 @@ CFGS = {
     # ---- exhaustive model checking (invariants + action properties) -----------------------
     "MC_relay": dict(kind="mc", doc="relay family: 2 clients, 2 users, veto, wrong family, invalid channel number",
                      Clients='{"c1", "c2"}', Users='{"u1", "u2"}', PeerIPs='{"A", "B", "X"}', ReqFams='{0, 6}',
-                     ChanNums='{16384, 16385, 1}', LifeReqs='<- MCLifeAbsent0', PermSeqs='<- MCPermSeqs2',
+                     ChanNums='{16384, 16385, 1, 49152}', LifeReqs='<- MCLifeAbsent0', PermSeqs='<- MCPermSeqs2',
                      Denied='<- MCDenied', MaxDepth='6'),
     "MC_relayB": dict(kind="mc", doc="channel timeout shorter than the permission timeout",
                       PeerIPs='{"A", "B"}', LifeReqs='<- MCLifeAbsent0', PermSeqs='<- MCPermSeqsAB',
@@ -29,8 +29,8 @@ CFGS = {
     "MC_time": dict(kind="mc", doc="lifetimes: every LIFETIME class, refreshes, expiry",
                     ReqFams='{0, 6}', PeerIPs='{"A"}', PeerPorts='{1}', ChanNums='{16384}', LifeReqs='<- MCLifeTime',
                     Txids='{"t1", "t2"}', MaxDepth='8'),
-    "MC_iso": dict(kind="mc", doc="three 5-tuples (same IP other port, other IP), shared users, peers, numbers, txids",
-                   Clients='{"c1", "c2", "c3"}', Users='{"u1", "u2"}', PeerIPs='{"A"}', ChanNums='{16384}',
+    "MC_iso": dict(kind="mc", doc="three 5-tuples (same IP other port, other IP), shared users, peers, numbers, txids; u2 over quota",
+                   Clients='{"c1", "c2", "c3"}', Users='{"u1", "u2"}', QuotaDenied='{"u2"}', PeerIPs='{"A"}', ChanNums='{16384}',
                    LifeReqs='<- MCLifeAbsent0', MaxDepth='5'),
     "MC_v6": dict(kind="mc", doc="IPv6 listener and peers, REQUESTED-ADDRESS-FAMILY classes",
                   Clients='{"c1", "c6"}', PeerIPs='{"A", "X", "Y"}', PeerPorts='{1}', ReqFams='{0, 4, 6, 9}',
@@ -49,12 +49,12 @@ CFGS = {
                        PermSeqs='<- MCPermSeqsAB', PermTO='3', ChanTO='2', MaxDepth='6'),
     "GEN_relayD": dict(kind="gen", doc="two clients, operator veto for (c1,B), IPv6 peer, invalid channel number",
                        Clients='{"c1", "c2"}', PeerIPs='{"A", "B", "X"}', PeerPorts='{1}', ReqFams='{0}',
-                       ChanNums='{16384, 1}', PermSeqs='<- MCPermSeqs2', Denied='<- MCDenied', MaxDepth='5'),
+                       ChanNums='{16384, 1, 32768, 49152, 65535}', PermSeqs='<- MCPermSeqs2', Denied='<- MCDenied', MaxDepth='5'),
     "GEN_time": dict(kind="gen", doc="allocation lifetime classes, refresh (also with a REQUESTED-ADDRESS-FAMILY), delete, expiry",
                      ReqFams='{0, 6}', PeerIPs='{"A"}', PeerPorts='{1}', ChanNums='{16384}', LifeReqs='<- MCLifeTime',
                      Txids='{"t1", "t2"}', MaxDepth='5'),
-    "GEN_users": dict(kind="gen", doc="two users on one 5-tuple: ownership checks on every method",
-                      Users='{"u1", "u2"}', PeerIPs='{"A"}', PeerPorts='{1}', ChanNums='{16384}',
+    "GEN_users": dict(kind="gen", doc="two users on one 5-tuple: ownership checks on every method; u2 is over its allocation quota",
+                      Users='{"u1", "u2"}', QuotaDenied='{"u2"}', PeerIPs='{"A"}', PeerPorts='{1}', ChanNums='{16384}',
                       LifeReqs='<- MCLifeAbsent0', Txids='{"t1", "t2"}', MaxDepth='5'),
     "GEN_iso": dict(kind="gen", doc="three 5-tuples sharing users, peers, channel numbers and transaction ids",
                     Clients='{"c1", "c2", "c3"}', Users='{"u1"}', PeerIPs='{"A"}', PeerPorts='{1}', ChanNums='{16384}',
@@ -78,7 +78,7 @@ CFGS = {
 }
 
 ORDER = ["Clients", "Users", "PeerIPs", "PeerPorts", "Fam", "ListenFam", "Strict", "ReqFams", "ChanNums", "LifeReqs",
-         "Txids", "Pays", "Lens", "InboundMTU", "PermSeqs", "DefaultLife", "PermTO", "ChanTO", "MaxLife", "Denied", "Toks", "ResvTO",
+         "Txids", "Pays", "Lens", "InboundMTU", "PermSeqs", "DefaultLife", "PermTO", "ChanTO", "MaxLife", "Denied", "Toks", "ResvTO", "QuotaDenied",
          "MaxDepth"]
 
 for name, c in CFGS.items():
